@@ -96,6 +96,7 @@ def main(argv=None):
     ap.add_argument('--only', default=None)
     ap.add_argument('--verbose', '-v', action='store_true')
     ap.add_argument('--no-bounded', action='store_true')
+    ap.add_argument('--no-evidence', action='store_true', help='do not rewrite evidence/<id>.json (mutation runs on scratch copies)')
     a = ap.parse_args(argv)
     seed = int(os.environ.get('VERIF_SEED', '0') or 0)
     t_start = time.time()
@@ -359,7 +360,8 @@ def _main(a, seed, t_start):
         'wall_s': round(wall, 2), 'violations': len(violations),
     }
     os.makedirs(os.path.join(HERE, 'evidence'), exist_ok=True)
-    json.dump(evidence, open(os.path.join(HERE, 'evidence', prop + '.json'), 'w'), indent=1, default=str)
+    if not (a.no_evidence or os.environ.get('VERIF_NO_EVIDENCE')):
+        json.dump(evidence, open(os.path.join(HERE, 'evidence', prop + '.json'), 'w'), indent=1, default=str)
 
     if a.write_baseline:
         json.dump({'functions': {f['target']: f['sha256'] for f in functions},
